@@ -238,6 +238,8 @@ def _ul_method(ex, recv, name, args, kwargs):
 
 
 def _elem_term(ex, x, ety):
+    if ety.kind == "box":
+        return ety.box(_elem_term(ex, x, ety.inner))
     if isinstance(x, NTVal):
         return x.term()
     if isinstance(x, HObj) and hasattr(ety, "lift_obj"):
